@@ -18,6 +18,10 @@ def hist(which, nsheets, ops):
 
 def I(s, r, c, v): return {"Input": [s, r, c, v]}
 
+def shrunk(fid):
+    """case written earlier by work/mkfinding.sh (a shrunk witness of a real run)"""
+    return json.load(open(os.path.join(HERE, "findings", fid + ".json")))["case"]
+
 # two clean-room alternatives: (1) structural edits over plain data, (2) everything but structural edits
 CLEAN_C01 = ("formulas,links,cf,paste,autofill,borders,edges,delete_sheet,named_style_update,update_name;"
              "structural,paste,autofill,cse_arrays,dyn_arrays,delete_sheet,edges,update_name,named_style_update,borders")
@@ -122,6 +126,121 @@ open_("F-C01-border", "C01",
                       {"Border": [1, 4, 4, 2, 1, "{\"item\":{\"style\":\"medium\",\"color\":\"#000000\"},\"type\":\"Top\"}"]}, "Undo", "Undo"]),
       patterns=[{"check": "undo", "keys": ["Border"], "cats": ["cell.style"]}],
       avoid=CLEAN_C01)
+
+# ---------------------------------------------------------------- C02
+CLEAN_HIST = CLEAN_C01
+ANYCELL = CELLCATS
+open_("F-C02-cyclic", "C02",
+      "formulas on an undetected cycle (an aggregate over a range that contains the formula or its spill) get evaluation-order dependent values, so redo shows other values than the original operation did",
+      shrunk("F-C02-array"),
+      patterns=[{"check": "redo", "keys": ["*"], "cats": ANYCELL}],
+      avoid=CLEAN_HIST)
+
+# ---------------------------------------------------------------- C03
+open_("F-C03-cyclic", "C03",
+      "formulas on an undetected cycle get evaluation-order dependent values, so a replica that applies the same diffs computes other values than the primary",
+      shrunk("F-C03-cyclic"),
+      patterns=[{"check": "replica-diverged", "keys": ["*"],
+                 "cats": ANYCELL + ["row.hidden", "col.hidden", "col.style", "row.style", "sheet.cf"]}],
+      avoid=CLEAN_HIST)
+open_("F-C03-leaked-diff", "C03",
+      "paste/autofill/clear operations that fail half-way (target overlaps an array formula) leave their diffs in the outgoing queue; the replica then fails to apply the batch",
+      shrunk("F-C03-leaked-diff"),
+      patterns=[{"check": "replica-apply", "keys": ["*"], "cats": ["*"]}],
+      avoid=CLEAN_HIST)
+open_("F-C03-sheet-index", "C03",
+      "after delete_sheet followed by move_sheet the replica fails with 'Invalid worksheet index' (the redo path of DeleteSheet/MoveSheet moves the replica's selection to a sheet that does not exist)",
+      shrunk("F-C03-sheet-index"),
+      patterns=[{"check": "replica-apply", "keys": ["*"], "cats": ["*"]}],
+      avoid=CLEAN_HIST)
+
+# ---------------------------------------------------------------- C04
+fixed("FX-C04-push-before-validate", "C04", "d0a1575",
+      "set_timezone with an invalid timezone returned an error but recorded an undo entry and dropped the redo list",
+      hist("C04", 1, [I(0, 1, 1, "1"), I(0, 1, 2, "2"), "Undo", {"SetTimezone": "Nowhere/None"}]))
+fixed("FX-C04-frozen", "C04", "d0a1575",
+      "set_frozen_rows_count(-1) returned an error but recorded an undo entry",
+      hist("C04", 1, [I(0, 1, 1, "1"), {"FrozenRows": [0, -1]}]))
+open_("F-C04-paste", "C04",
+      "paste_from_clipboard (cut) pastes and then fails to clear a source range that contains part of an array formula",
+      shrunk("F-C04-paste"),
+      patterns=[{"check": "failed-state", "keys": ["CopyPaste", "AutoFillRows", "AutoFillCols", "PasteStyles", "PasteCsv"], "cats": ANYCELL + ["row.height"]},
+                {"check": "failed-history", "keys": ["CopyPaste", "AutoFillRows", "AutoFillCols", "PasteStyles", "PasteCsv"], "cats": ["*"]}],
+      avoid=CLEAN_HIST)
+open_("F-C04-array-edge", "C04",
+      "set_user_array_formula whose range leaves the grid writes the anchor and then fails",
+      shrunk("F-C04-array"),
+      patterns=[{"check": "failed-state", "keys": ["ArrayFormula"], "cats": ANYCELL}],
+      avoid=CLEAN_HIST)
+open_("F-C04-hidden-edge", "C04",
+      "hiding the last column/row hides it and then fails while looking for the next visible one past the grid",
+      shrunk("F-C04-hidden-edge"),
+      patterns=[{"check": "failed-state", "keys": ["ColHidden", "RowHidden"], "cats": ["col.hidden", "row.hidden"]}],
+      avoid=CLEAN_HIST)
+open_("F-C04-link", "C04",
+      "set_cell_link on a cell inside an array formula attaches the link and then fails writing the label",
+      shrunk("F-C04-link"),
+      patterns=[{"check": "failed-state", "keys": ["SetLink", "SetInternalLink"], "cats": ["cell.link", "cell.style"]}],
+      avoid=CLEAN_HIST)
+open_("F-C04-style-range", "C04",
+      "update_range_style over a full column fails half-way when the sheet holds a cell outside the grid (pushed there by an earlier insertion), leaving part of the range styled",
+      shrunk("F-C04-style-range"),
+      patterns=[{"check": "failed-state", "keys": ["Style", "Border", "ApplyNamedStyle", "ClearFormatting"], "cats": ["cell.style", "col.style", "row.style"]}],
+      avoid=CLEAN_HIST)
+
+# ---------------------------------------------------------------- C26
+open_("F-C26-values", "C26",
+      "a workbook whose stored values are stale or evaluation-order dependent (whole-row ranges after a row deletion, undetected cycles, array formulas spilling past the grid edge) evaluates differently after to_bytes/from_bytes",
+      shrunk("F-C26-values"),
+      patterns=[{"check": "reload-values", "keys": ["-"], "cats": ANYCELL}],
+      avoid=CLEAN_HIST)
+open_("F-C26-struct", "C26",
+      "from_bytes(to_bytes()) is not struct-equal when a dynamic array at the last row tried to spill past the grid",
+      shrunk("F-C26-struct"),
+      patterns=[{"check": "reload-struct", "keys": ["-"], "cats": ["*"]}],
+      avoid=CLEAN_HIST)
+
+# ---------------------------------------------------------------- C27
+SPILL = ["spill.anchor_missing", "spill.anchor_not_an_array_formula", "spill.not_covered", "spill.overlap"]
+fixed("FX-C27-delete-cols-descriptor", "C27", "43fd844",
+      "delete_columns left an empty column descriptor (min > max) when it deleted a whole descriptor",
+      hist("C27", 1, [{"ColHidden": [0, 5, 5, True]}, {"InsertCols": [0, 1, 1]},
+                      {"ColHidden": [0, 3, 3, False]}, {"DeleteCols": [0, 6, 1]}]))
+open_("F-C27-array-overlap", "C27",
+      "set_user_array_formula accepts a range that overlaps the spill cells of another array formula, leaving spill cells whose anchor does not cover them",
+      shrunk("F-C27-array-overlap"),
+      patterns=[{"check": "structure", "keys": ["ArrayFormula", "Input", "CopyPaste", "PasteCsv", "AutoFillRows", "AutoFillCols", "Undo", "Redo", "ClearContents", "ClearAll"], "cats": SPILL}],
+      avoid=CLEAN_HIST)
+open_("F-C27-spill-structural", "C27",
+      "row/column insert/delete/move leave spill cells whose anchor moved, vanished or no longer covers them",
+      shrunk("F-C27-spill-structural"),
+      patterns=[{"check": "structure", "keys": STRUCT + ["Undo", "Redo"], "cats": SPILL}],
+      avoid=CLEAN_HIST)
+open_("F-C27-edge", "C27",
+      "inserting rows/columns pushes row and column descriptors that sit at the last rows/columns past the grid",
+      shrunk("F-C27-edge"),
+      patterns=[{"check": "structure", "keys": ["InsertRows", "InsertCols", "Undo", "Redo", "MoveRows", "MoveCols"],
+                 "cats": ["rows.bounds", "cols.bounds", "cell.outside_grid"]}],
+      avoid=CLEAN_HIST)
+open_("F-C27-names", "C27",
+      "delete_sheet leaves the defined names scoped to the deleted sheet behind",
+      shrunk("F-C27-names"),
+      patterns=[{"check": "structure", "keys": ["*"], "cats": ["defined_name.scope_missing_sheet"]}],
+      avoid=CLEAN_HIST)
+
+# ---------------------------------------------------------------- C28
+fixed("FX-C28-delete-sheet", "C28", "03fe317",
+      "deleting a sheet before the selected last sheet left the selection pointing at a sheet index that no longer exists",
+      hist("C28", 3, [{"SelectSheet": 2}, {"DeleteSheet": 0}]))
+fixed("FX-C28-paging", "C28", "1556847",
+      "page down after navigating to the last row (and page up with the selection scrolled out of view) put the selected row outside the grid",
+      hist("C28", 1, [{"NavEdge": "ArrowDown"}, {"Key": "PageDown"}]))
+fixed("FX-C28-paging-up", "C28", "1556847",
+      "page up with the selection scrolled out of view put the selected row at -2",
+      hist("C28", 1, [{"TopLeft": [4, 1]}, {"Key": "PageUp"}]))
+fixed("FX-C28-area-selecting", "C28", "bade6a0",
+      "on_area_selecting after extending the range to the left produced a range that did not contain the selected cell",
+      hist("C28", 1, [{"SelectCell": [6, 6]}, {"ExpandSel": "ArrowLeft"}, {"AreaSelecting": [7, 1]}]))
 
 def main():
     os.makedirs(os.path.join(HERE, "findings"), exist_ok=True)
